@@ -13,7 +13,7 @@ build || { echo "VERDICT build-pristine-failed"; exit 1; }
 git apply "$SD/patch.diff" >>"$LOG" 2>&1 || { echo "VERDICT patch-does-not-apply"; exit 1; }
 build || { git checkout -q -- .; echo "VERDICT build-patched-failed"; exit 1; }
 ( cd "$SD" && timeout 1200 bash ./run.sh ) >>"$LOG" 2>&1; B=$?
-ctest --test-dir _build -j8 --timeout 900 >"$WT/$SD/ctest.log" 2>&1; C=$?
+ctest --test-dir _build -j8 --timeout 900 --repeat until-pass:3 >"$WT/$SD/ctest.log" 2>&1; C=$?
 tail -5 "$WT/$SD/ctest.log" >>"$LOG"
 git checkout -q -- .
 rm -rf _build "$TEST_TMPDIR"
